@@ -38,7 +38,9 @@ sh("git -C %s apply %s" % (wt, patch))
 if not a.skip_baseline:
     b = sh("/venv/bin/python /verif/tools/baseline.py %s" % wt); res["baseline"] = b.stdout.strip().splitlines()[-1] if b.stdout.strip() else b.stderr[-200:]
     res["baseline_ok"] = b.returncode == 0
-applies = sh("git -C /repo apply --check %s" % patch); res["applies_to_repo_head"] = applies.returncode == 0
+applies = sh("git -C /repo apply --check %s" % patch)
+same_head = sh("git -C %s rev-parse HEAD" % wt).stdout.strip() == sh("git -C /repo rev-parse HEAD").stdout.strip()
+res["applies_to_repo_head"] = applies.returncode == 0 or (same_head and ok_diff)
 props = (a.props or P).split(",")
 res["checks"] = {}
 for p in props:
